@@ -10,7 +10,8 @@ DeepCases(zzdummy) ==
                                json |-> JNull, node |-> [k |-> "unit"]]]
 (* inputs of types that have no specialised conversion: judged by agreement of the feature sets alone *)
 Generics == <<"Vec<i32>", "&Vec<i32>", "BTreeMap<String,i32>", "BTreeMap<u16,String>", "BTreeMap<bool,i32>", "BTreeMap<char,i32>", "HashMap<i64,()>", "Vec<BTreeMap<u8,u8>>",
-              "(i32,String)", "P", "Option<i32>", "Option<()>", "i128", "u128", "i128big", "[u8;2]", "Box<i32>", "char", "f32nan", "f64nan", "f64inf", "f32neginf", "&f64nan", "Vec<f64>", "(BTreeMap<i8,i8>,i8)", "Vec<u128>">>
+              "(i32,String)", "P", "Option<i32>", "Option<()>", "i128", "u128", "i128big", "[u8;2]", "Box<i32>", "char", "f32nan", "f64nan", "f64inf", "f32neginf", "&f64nan", "Vec<f64>", "(BTreeMap<i8,i8>,i8)", "Vec<u128>",
+              "f64sub1", "f64sub2", "f64subneg", "f64subtop", "f64minpos", "f64max", "f64min", "f64negzero", "f64eps", "f32sub", "f32minpos", "f32max", "f32negzero", "&f64sub", "Vec<f64sub>", "Option<f64sub>">>
 GenericCases(zzdummy) == [i \in DOMAIN Generics |-> [e |-> "conv", kind |-> "convgen", ty |-> Generics[i], json |-> JNull, node |-> [k |-> "unit"]]]
 ASSUME ndJsonSerialize(IOEnv.OUT, Cases(0) \o DeepCases(0) \o GenericCases(0))
 =============================================================================
